@@ -128,6 +128,9 @@ def run(ctx):
     # a trailing space after a bare atom must not change the result: it did when the copula look-ahead accepted a truncated copula at the end of input (D9)
     import fullmatch
     fullmatch.rule_P_FULLMATCH(ctx)
+    # a bare term that ends in an identifier-only stamp/truth keyword (Han) must reach the term segmenter whole (D11)
+    import suffix
+    suffix.rule_S_SUFFIX(ctx, T)
     ctx.undecided = ["that removing ALL spaces never glues two tokens for every value (the copula look-ahead and identifier classes make "
                      "this value-dependent)", "the macro's whitespace stripping is an instance of `remove all spaces` and has no separate rule"]
     ctx.assumptions = ["the flag correlation modelled by the typestate (ok = match result {Ok=>true,Err=>false}) is the only one the parser's macros create"]
